@@ -540,6 +540,20 @@ def rule_d(ctx):
           return False
         if arg is None or not plain(arg) or any(k.arg == 'quote' and A.unparse(k.value) != 'True' for k in c.keywords) or len(c.args) > 1:
           bad.append(f'line {c.lineno}: `{A.unparse(c, 80)}`')
+  # ... on every path: the helper that escapes a str never hands its input back as it came
+  # (a shortcut for text that "looks escaped already" lets `&amp; <script>` through)
+  raw_returns = []
+  for fn in {id(x): x for x in scan}.values():
+    if not isinstance(fn, ast.FunctionDef):
+      continue
+    if not any(isinstance(c, ast.Call) and A.call_name(c) == 'html_lib.escape' for c in A.walk_local(fn)):
+      continue
+    prm = set(A.param_names(fn))
+    for r in A.walk_local(fn):
+      if isinstance(r, ast.Return) and isinstance(r.value, ast.Name) and r.value.id in prm and not D.defs_of(fn, r.value.id)[1:]:
+        raw_returns.append(f'line {r.lineno}: `return {r.value.id}`')
+  ctx.ob('C20.d', f.fq + '#every-path', not raw_returns,
+         'the string escaper never returns its input unchanged', f.loc, '; '.join(raw_returns))
   ctx.ob('C20.d', f.fq + '#argument', ne > 0 and not bad,
          'html.escape is applied to the text itself (not to an un-escaped, stripped or truncated form) with quotes escaped',
          f.loc, '; '.join(bad) or 'no html_lib.escape call')
@@ -605,6 +619,17 @@ def rule_e(ctx):
 
 def run(ctx):
   ctx.consult(*FILES)
+  # the scope that carries the view options never writes into the enclosing scope's value
+  # (C17.g, decided here for views.base.view_options: leaked child options drop keys and leaves)
+  from sa.rules import c17 as _c17
+  _before = len(ctx.obs)
+  _c17.rule_g(ctx, _c17.context_managers(ctx.index)[0])
+  kept = []
+  for o in ctx.obs[_before:]:
+    if 'views' in o.construct:
+      o.rule = 'C20.e'
+      kept.append(o)
+  ctx.obs[_before:] = kept
   rule_a(ctx)
   rule_b(ctx)
   rule_c(ctx)
